@@ -137,6 +137,38 @@ def gen_case(r, cid, impl, nops, allow_overflow=False, stats=None):
     ops.append("OP dump")
     return head, ops
 
+def gen_bulk_case(r, cid, impl, stats=None):
+    """a table filled to just under a grow threshold (long bucket chains), thinned out by deletes and expiries, then grown by
+    fresh inserts, then read back key by key: entries that sit in overflow buckets behind emptied root slots, entries that
+    survive a resize, expired-uncleaned entries carried across a resize"""
+    zero = 0 if impl == "cacheof_ii" else -1
+    head = ["CASE %s %s %d %d" % (cid, impl, zero, NOW0), "NEWDEFAULT %d 0 " % NOEXP]
+    n1 = r.choice([118, 235, 235, 470]) if impl != "cache" else r.choice([70, 142, 142, 286])
+    ops = []
+    v = 1
+    ttl_keys = set()
+    for k in range(n1):
+        v += 1
+        if r.random() < 0.25:
+            ops.append("OP set %d %d %d" % (k, v, 1000)); ttl_keys.add(k)
+        else:
+            ops.append("OP setforever %d %d" % (k, v))
+    ops.append("OP advance 2000")                    # a quarter of the entries is now expired and not cleaned
+    ks = list(range(n1)); r.shuffle(ks)
+    for k in ks[:int(n1 * r.choice([0.5, 0.6, 0.7]))]:
+        ops.append("OP %s %d" % (r.choice(["delete", "getanddelete", "delete"]), k))
+    if r.random() < 0.5:
+        ops.append("OP deleteexpired")
+    for k in range(n1, n1 + n1):
+        v += 1
+        ops.append("OP setforever %d %d" % (k, v))
+    for k in range(2 * n1):
+        ops.append("OP get %d" % k)
+    ops += ["OP count", "OP items", "OP dump"]
+    if stats is not None:
+        stats["case:bulk"] = stats.get("case:bulk", 0) + 1
+    return head, ops
+
 def densify(case):
     """physical snapshot before every removing call and every Count, and a Count
     right after every DeleteExpired / Clear (used by the C06 / C08 / C15 checks)"""
@@ -159,6 +191,9 @@ def gen_cases(seed, n, impls=("cache", "cacheof_sa", "cacheof_ii"), nops=(5, 60)
         k = r.randint(*nops)
         if i % 25 == 24:
             k = k * 25                     # a long history now and then (hundreds of keys in play)
+        if i % 20 == 13 and not dense:
+            cases.append(gen_bulk_case(r, "c%d" % i, impl, stats))
+            continue
         c = gen_case(r, "c%d" % i, impl, k, allow_overflow, stats)
         cases.append(densify(c) if dense else c)
     return cases
